@@ -603,6 +603,8 @@ CONV = [
     dict(tag='trap32', sizes=[3, 2], mono=[1, 0], trap=[[0, 1, -1]]),
     dict(tag='mdom32', sizes=[3, 2], mono=[1, 1], mdom=[[0, 1]]),
     dict(tag='jmono32', sizes=[3, 2], jmono=[[0, 1]]),
+    dict(tag='rdom23', sizes=[2, 3], mono=[1, 1], rdom=[[0, 1]], nearest=False),
+    dict(tag='rdom32', sizes=[3, 2], mono=[1, 1], rdom=[[0, 1]], nearest=False),
     # several constraints of the same family (distinct roll-back slots must not be shared)
 ]
 # 8-weight lattices: the kernel is symbolic on a 4-coordinate slice (the other weights are 0), N in {2,4}
